@@ -72,7 +72,7 @@ Proof. intros Hn H.
   - unfold interface_toks. rewrite p_item_interface, Hp. reflexivity.
   - cbn [decl_of]. rewrite str_eqb_refl, Hk. reflexivity. Qed.
 
-(* ------------------------------------------------------------------ export type N = "a" | "b" ; *)
+(* ------------------------------------------------------------------ the enum alias: export type N = lit | lit ; *)
 Lemma lexes_lit (P0 : str -> Prop) (s : str) (ts : list tk) (k : nat) :
   k <= List.length s -> (forall r f, lexm (k + f) (s ++ r) = ts ++ lexm f r) -> lexes P0 s ts.
 Proof. intros Hk H r f _ Hf. rewrite app_length in Hf. exists (f - k). split; [lia|].
